@@ -62,6 +62,7 @@ type gen struct {
 
 	vals     map[ssa.Value]*Val
 	fnNamed  map[int]bool
+	hypForalls []hypForall
 	// recursive spec functions (see evalRec)
 	recName     map[string]string
 	recUnfolded map[int]bool
@@ -167,6 +168,51 @@ func (g *gen) assume(st *State, f *Term) {
 	}
 	g.assumes = append(g.assumes, imp)
 	g.assumeBlk = append(g.assumeBlk, g.blkIdx())
+	if f.Op == "forall" && len(f.Q) == 1 {
+		g.hypForalls = append(g.hypForalls, hypForall{f: f, reach: st.reach, blk: g.blkIdx()})
+	}
+}
+
+// hypForall: a universally quantified hypothesis, kept so that instances at
+// terms of interest (range indices, skolem constants of universally quantified
+// goals) can be handed to the solver explicitly. An instance is a consequence of
+// the hypothesis and is assumed under the same path condition and block.
+type hypForall struct {
+	f     *Term
+	reach *Term
+	blk   int
+	done  map[int]bool
+}
+
+const maxHypForalls = 16
+
+func (g *gen) instantiateHyps(ws []*Term) {
+	if g.dry > 0 {
+		return
+	}
+	lo := len(g.hypForalls) - maxHypForalls
+	if lo < 0 {
+		lo = 0
+	}
+	for i := lo; i < len(g.hypForalls); i++ {
+		h := &g.hypForalls[i]
+		if h.done == nil {
+			h.done = map[int]bool{}
+		}
+		for _, w := range ws {
+			if h.done[w.id] || w.Sort != h.f.Q[0].Sort {
+				continue
+			}
+			h.done[w.id] = true
+			inst := Subst(h.f.Args[0], h.f.Q[0], w, map[int]*Term{})
+			imp := Implies(h.reach, inst)
+			if imp.IsTrue() {
+				continue
+			}
+			g.assumes = append(g.assumes, imp)
+			g.assumeBlk = append(g.assumeBlk, h.blk)
+		}
+	}
 }
 
 func (g *gen) assumeGlobal(f *Term) {
@@ -192,6 +238,9 @@ func (g *gen) oblige(st *State, kind, label string, goal *Term, detail string) *
 	}
 	if goal.IsTrue() && (strings.HasPrefix(kind, "safe:") || kind == "frame") {
 		return nil
+	}
+	if len(g.hypForalls) > 0 {
+		g.instantiateHyps(g.rangeIndexTerms())
 	}
 	// the same goal already obliged at a dominating point is known there
 	// (assert-then-assume): do not ask again
